@@ -13,7 +13,7 @@ impl<'b, R: BufRead> XmlSource<'b, &'b mut Vec<u8>> for R {
     open spec fn faults(&self) -> nat { self.nfaults() }
     open spec fn buffered(&self) -> nat { self.avail() }
 
-//@extract buffered::remove_utf8_bom | src/reader/buffered_reader.rs :: impl<'b, R: BufRead> XmlSource<'b, &'b mut Vec<u8>> for R :: invoke impl_buffered_source :: fn remove_utf8_bom | serves=C02,C17,C18
+//@extract buffered::remove_utf8_bom | src/reader/buffered_reader.rs :: impl<'b, R: BufRead> XmlSource<'b, &'b mut Vec<u8>> for R :: invoke impl_buffered_source :: fn remove_utf8_bom | serves=C01,C02,C03,C08,C12,C17,C18
  #[verifier::loop_isolation(false)]
  #[verifier::allow_complex_invariants]
  fn remove_utf8_bom(&mut self) -> (r: io::Result<()>)
@@ -49,7 +49,7 @@ impl<'b, R: BufRead> XmlSource<'b, &'b mut Vec<u8>> for R {
         }
 //@end
 
-//@extract buffered::read_text | src/reader/buffered_reader.rs :: impl<'b, R: BufRead> XmlSource<'b, &'b mut Vec<u8>> for R :: invoke impl_buffered_source :: fn read_text | serves=C01,C02,C03,C18
+//@extract buffered::read_text | src/reader/buffered_reader.rs :: impl<'b, R: BufRead> XmlSource<'b, &'b mut Vec<u8>> for R :: invoke impl_buffered_source :: fn read_text | serves=C01,C02,C03,C08,C12,C18
  #[verifier::loop_isolation(false)]
  #[verifier::allow_complex_invariants]
  fn read_text (
@@ -142,7 +142,7 @@ impl<'b, R: BufRead> XmlSource<'b, &'b mut Vec<u8>> for R {
         }
 //@end
 
-//@extract buffered::read_with | src/reader/buffered_reader.rs :: impl<'b, R: BufRead> XmlSource<'b, &'b mut Vec<u8>> for R :: invoke impl_buffered_source :: fn read_with | serves=C01,C02,C03,C18
+//@extract buffered::read_with | src/reader/buffered_reader.rs :: impl<'b, R: BufRead> XmlSource<'b, &'b mut Vec<u8>> for R :: invoke impl_buffered_source :: fn read_with | serves=C01,C02,C03,C08,C12,C18
  #[verifier::loop_isolation(false)]
  #[verifier::allow_complex_invariants]
  fn read_with< P: Parser>(
@@ -218,7 +218,7 @@ impl<'b, R: BufRead> XmlSource<'b, &'b mut Vec<u8>> for R {
         }
 //@end
 
-//@extract buffered::read_bang_element | src/reader/buffered_reader.rs :: impl<'b, R: BufRead> XmlSource<'b, &'b mut Vec<u8>> for R :: invoke impl_buffered_source :: fn read_bang_element | serves=C01,C02,C03,C18 n11=1,2
+//@extract buffered::read_bang_element | src/reader/buffered_reader.rs :: impl<'b, R: BufRead> XmlSource<'b, &'b mut Vec<u8>> for R :: invoke impl_buffered_source :: fn read_bang_element | serves=C01,C02,C03,C08,C12,C18 n11=1,2
  #[verifier::loop_isolation(false)]
  fn read_bang_element (
             &mut self,
@@ -324,7 +324,7 @@ impl<'b, R: BufRead> XmlSource<'b, &'b mut Vec<u8>> for R {
         }
 //@end
 
-//@extract buffered::skip_whitespace | src/reader/buffered_reader.rs :: impl<'b, R: BufRead> XmlSource<'b, &'b mut Vec<u8>> for R :: invoke impl_buffered_source :: fn skip_whitespace | serves=C02,C16,C18
+//@extract buffered::skip_whitespace | src/reader/buffered_reader.rs :: impl<'b, R: BufRead> XmlSource<'b, &'b mut Vec<u8>> for R :: invoke impl_buffered_source :: fn skip_whitespace | serves=C01,C02,C03,C08,C12,C16,C18
 //@rewrite n.iter().position(|b| ==> shim::position_ref(n, |b: &u8|
  #[verifier::loop_isolation(false)]
  #[verifier::allow_complex_invariants]
@@ -374,7 +374,7 @@ impl<'b, R: BufRead> XmlSource<'b, &'b mut Vec<u8>> for R {
         }
 //@end
 
-//@extract buffered::peek_one | src/reader/buffered_reader.rs :: impl<'b, R: BufRead> XmlSource<'b, &'b mut Vec<u8>> for R :: invoke impl_buffered_source :: fn peek_one | serves=C02,C18
+//@extract buffered::peek_one | src/reader/buffered_reader.rs :: impl<'b, R: BufRead> XmlSource<'b, &'b mut Vec<u8>> for R :: invoke impl_buffered_source :: fn peek_one | serves=C01,C02,C03,C08,C12,C18
  #[verifier::loop_isolation(false)]
  #[verifier::allow_complex_invariants]
  fn peek_one(&mut self) -> (r: io::Result<Option<u8>>) {
